@@ -61,7 +61,7 @@ def generate_lemmas(names):
     return out
 
 
-def generate(qualnames, tier="quick", exclude=()):
+def generate(qualnames, tier="quick", exclude=(), carves=()):
     """-> (obligations, per_function_info)"""
     obligations, info = [], {}
     used_lemmas = set()
@@ -74,6 +74,7 @@ def generate(qualnames, tier="quick", exclude=()):
         ex = None
         try:
             ex = Exec(q, c, tier)
+            ex.carves = list(carves)
             obs = ex.run()
             info[q] = {"status": "ok", "obligations": len(obs), "gen_s": round(time.time() - t0, 3), "assumed": sorted(ex.assumed), "notes": ex.notes,
                        "lemmas": sorted(getattr(ex, "used_lemmas", ()))}
